@@ -241,4 +241,37 @@ theorem run_view_relevant (G : Group) : ∀ (ops : List Op) (e1 e2 e1' : Entry),
           simp [List.filter_cons, ht']
         rw [hf]; exact hr2
 
+theorem run_append (e : Entry) (a b : List Op) : run e (a ++ b) = (run e a).bind fun m => run m b := by
+  induction a generalizing e with
+  | nil => rfl
+  | cons op a ih =>
+    simp only [List.cons_append, run_cons]
+    cases step e op with
+    | none => rfl
+    | some m => simp only [Option.bind_some]; exact ih m
+
+theorem run_untouched (G : Group) (ops : List Op) (e e' : Entry) (h : ∀ o ∈ ops, touches o G = false)
+    (hr : run e ops = some e') : view G e' = view G e := by
+  induction ops generalizing e with
+  | nil => simp only [run, Option.some.injEq] at hr; subst hr; rfl
+  | cons op ops ih =>
+    rw [run_cons] at hr
+    cases hs : step e op with
+    | none => simp [hs] at hr
+    | some m =>
+      simp only [hs, Option.bind_some] at hr
+      rw [ih m (fun o ho => h o (List.mem_cons_of_mem _ ho)) hr]
+      exact step_untouched G op e m (h op List.mem_cons_self) hs
+
+theorem run_invariant (P : Entry → Prop) (hstep : ∀ e e' op, step e op = some e' → P e → P e')
+    (ops : List Op) (e e' : Entry) (hr : run e ops = some e') (h : P e) : P e' := by
+  induction ops generalizing e with
+  | nil => simp only [run, Option.some.injEq] at hr; subst hr; exact h
+  | cons op ops ih =>
+    rw [run_cons] at hr
+    cases hs : step e op with
+    | none => simp [hs] at hr
+    | some m => simp only [hs, Option.bind_some] at hr; exact ih m hr (hstep e m op hs h)
+
+
 end LA.Entry
